@@ -102,6 +102,19 @@ Proof. exact peppi_arm_from_source. Qed.
 Theorem C18_version_check_from_source : forall v, assert_current_version_ok v = version_le PEPPI_MIN_VERSION v.
 Proof. exact assert_current_version_from_source. Qed.
 
+From Peppi Require Import Model.Api Gen.TarSrc Proofs.TarLayout Gen.JsonShape Proofs.JsonShapeLayout.
+(* ---- tar_append and the final flush, regenerated (Gen/TarSrc.v): GNU header, size = buffer length, path, mode 0o644, checksum last,
+   then the data; the tar-level model IS the table-driven form *)
+Theorem C18_tar_from_source :
+  (forall e, tar_entry e = tar_entry_tbl e) /\
+  (forall es, tar_bytes es = flat_map tar_entry_tbl es ++ fin_run tar_finish_steps false)%list.
+Proof. exact (conj tar_entry_from_source tar_bytes_from_source). Qed.
+(* the JSON entries are renderings of the regenerated struct shapes (keys in declaration order, Options omitted when None) *)
+Theorem C18_json_entries_from_source :
+  (forall s, api_cjson_start s = cjson (render json_fuel (JkStruct "Start") (gv_start s))) /\
+  (forall e, api_cjson_end e = cjson (render json_fuel (JkStruct "End") (gv_end e))).
+Proof. exact api_cjson_from_source. Qed.
+
 Print Assumptions C18_entry_order.
 Print Assumptions C18_entries_consistent.
 Print Assumptions C18_signature_at_offset_0.
@@ -116,3 +129,5 @@ Print Assumptions C18_metadata_arms_from_source.
 Print Assumptions C18_helper_calls_from_source.
 Print Assumptions C18_peppi_arm_from_source.
 Print Assumptions C18_version_check_from_source.
+Print Assumptions C18_tar_from_source.
+Print Assumptions C18_json_entries_from_source.
